@@ -32,7 +32,7 @@ QrB == [client_ip |-> <<10, 0, 0, 1>>]                 \* unstorable under set 1
 QrC == [client_port |-> <<2>>, client_ip |-> <<10, 0, 0, 2>>, ts |-> [s |-> <<4>>, t |-> <<>>]]
 Aec1 == [ae_type |-> <<>>, ip_address |-> <<1, 1, 1, 1>>]
 Aec2 == [ae_type |-> <<1>>, ip_address |-> <<1, 1, 1, 1>>, ae_code |-> <<3>>]
-Mm1 == [client_port |-> <<9>>, mm_payload |-> <<1, 2>>]
+Mm1 == [client_port |-> <<9>>, mm_payload |-> <<1, 2>>, ts |-> [s |-> <<4>>, t |-> <<9>>]]
 St1 == [processed_messages |-> <<4>>]
 
 Ops == {[op |-> "qr", r |-> QrA], [op |-> "qr", r |-> QrB], [op |-> "qr", r |-> QrC, stats |-> St1],
@@ -87,6 +87,7 @@ C12_AecConserve == \A k \in {Aec1, Aec2} :
                       ClosedCount(k, 1) + CountIn(ex.cur, k, 1) + CountIn(<<ex.blk>>, k, 1) = Occurs(k)
 C12_Sizes      == C12_BlockSizes(ex)
 C13_Contained  == C13_SelfContained(ex)
+C17_EarliestOK == C17_Earliest(ex)
 (* closed outputs never change afterwards *)
 C13_Frozen     == [][\A o \in 1..Len(ex.closed) : ex'.closed[o] = ex.closed[o]]_vars
 
